@@ -19,14 +19,14 @@ EV = {0: 'Enq', 1: 'Dropped', 2: 'Dispatch', 3: 'Requeue', 4: 'Handler', 5: 'Han
       7: 'NewLoopEnter', 8: 'NewLoopReturn', 9: 'ClosePop', 10: 'ProcEnter', 11: 'ProcReturn', 12: 'ForceQuit',
       13: 'QuitCb', 14: 'RunEnter', 15: 'RunReturn', 16: 'Kill', 17: 'Ext', 18: 'Mark', 19: 'U', 20: 'SigNew',
       21: 'RegHandler', 22: 'RegSource', 23: 'SetQuitCb', 24: 'Top'}
-UT = {1: 'SETUP', 2: 'REFRESH', 3: 'SHOW', 4: 'SEPARATOR', 5: 'PROMPT', 7: 'INPUT', 8: 'CLOSED', 10: 'MODAL_RETURN',
+UT = {22: 'SETUP_BEGIN', 1: 'SETUP', 2: 'REFRESH', 3: 'SHOW', 4: 'SEPARATOR', 5: 'PROMPT', 7: 'INPUT', 8: 'CLOSED', 10: 'MODAL_RETURN',
       11: 'REFUSED', 12: 'READY', 13: 'GOT', 14: 'MARK', 15: 'STACK', 16: 'ASK', 17: 'OP', 18: 'REQ', 19: 'ACTION', 20: 'WAITED'}
 
 MON = {"C04": 4, "C05": 5, "C06": 6, "C07": 7, "C08": 8, "C18": 18, "C17": 17, "C09": 9}
 # which user-event tags / loop events each property's correspondence compares
 PROJ_U = {
-    "C04": {1, 2, 3, 4, 15, 17}, "C05": {1, 2, 3, 7, 10, 12, 15, 17}, "C06": {5, 7, 12, 18}, "C07": {7, 19, 17, 18, 10},
-    "C08": {1, 2, 3, 8, 15, 17}, "C18": {5, 11, 12, 13, 16, 20}, "C17": {3, 4}, "C09": {8, 15, 17, 10},
+    "C04": {1, 2, 3, 4, 15, 17, 22}, "C05": {1, 2, 3, 7, 10, 12, 15, 17, 22}, "C06": {5, 7, 12, 18}, "C07": {7, 19, 17, 18, 10},
+    "C08": {1, 2, 3, 8, 15, 17, 22}, "C18": {5, 11, 12, 13, 16, 20}, "C17": {3, 4}, "C09": {8, 15, 17, 10},
 }
 PROJ_L = {
     "C04": {24}, "C05": {7, 8, 9, 24}, "C06": {4, 5, 17, 24}, "C07": {0, 1, 4, 5, 20, 24}, "C08": {24}, "C18": {4, 5, 17, 24}, "C17": {24},
@@ -156,6 +156,17 @@ def classify(prop, case, res, idx, model=None):
         if r[0] == 1:
             return "modal-push-after-close-in-same-callback"
     before = res[1][:idx]
+    if prop in ("C04", "C08"):
+        # finding F19: a setup() that ran commands of its own (T_SETUP_BEGIN) changed the stack and then reported failure:
+        # the scheduler discards `self._screen_stack.pop()`, i.e. whatever is on top at that moment (or fails on an empty
+        # stack), not the entry whose setup failed
+        us = [e for e in before if e[0] == 19]
+        if us and us[-1][1] == 1 and us[-1][2][3] == 0:
+            f = us[-1][2][0]
+            began = any(e[1] == 22 and e[2][0] == f for e in us)
+            pops_f = ev[0] == 19 and ev[1] == 15 and ev[2][0] == 2 and ev[2][1] == f
+            if began and not pops_f:
+                return "failed-setup-after-stack-change:wrong-entry-discarded"
     if prop == "C05" and kind == "INPUT":
         # finding F16: (2) run() again after a force-quit; (1) the same screen object twice on the stack
         if any(e[0] == 12 for e in before) and sum(1 for e in before if e[0] == 14) >= 2:
@@ -230,6 +241,9 @@ def gen_cases(prop, tier, rng):
     for k in range(n // 3):
         # C17 (what the framework writes during a session): also the overlapping-prompt family, where a prompt is re-printed
         cases.append(screen_gen.gen_focus_case(rng, "C18" if (prop == "C17" and k % 2) else prop))
+    for k in range(n // 6):
+        # setup() callbacks that push / schedule / replace / close screens, emit signals or raise before reporting their result
+        cases.append(screen_gen.gen_setup_case(rng))
     if prop == "C07":
         # ~15 % sessions with the REAL stock dialogs of render/adv_widgets.py (YesNoDialog as quit dialog, ...): 7-element cases,
         # the model runs on the specs of coq/theories/AdvWidgets.v (harness/adv_specs.py, checks/adv_corr.py)
